@@ -122,7 +122,7 @@ func options(meshes, mats, trss []string, insts []int) []ModelSpec {
 		for _, ma := range mats {
 			for _, t := range trss {
 				for _, in := range insts {
-					out = append(out, ModelSpec{me, ma, t, in})
+					out = append(out, ModelSpec{Mesh: me, Mat: ma, TRS: t, Inst: in})
 				}
 			}
 		}
@@ -176,6 +176,12 @@ func run(c *core.Ctx) {
 		}
 	}
 	c.Bound("uri_spelling", fmt.Sprintf("image URIs %q: the same three-model scene stores the same numbers of textures, images, samplers and materials for each", uriMenu))
+	// instance lists that are slices of one array (same first element, other lengths), in both orders
+	for _, ab := range [][2]int{{1, 3}, {3, 1}, {2, 4}, {4, 2}, {2, 2}, {1, 4}} {
+		for _, meshes := range [][2]string{{"A", "Q"}, {"P", "A"}, {"A", "A"}} {
+			each("models=2/instance-lists-share-an-array", []ModelSpec{{Mesh: meshes[0], Mat: "-", TRS: "-", Inst: ab[0], SharedInst: true}, {Mesh: meshes[1], Mat: "M", TRS: "T", Inst: ab[1], SharedInst: true}})
+		}
+	}
 	// names outside ASCII: one and two small models, every material, both containers
 	for _, m := range options([]string{"A", "P", "E"}, []string{"-", "M", "Mx"}, []string{"-", "TRS"}, []int{0, 1}) {
 		for _, l := range lights {
@@ -237,10 +243,10 @@ func run(c *core.Ctx) {
 		for _, me := range smallMeshes {
 			for _, ma := range matMenu {
 				for _, t := range trsMenu {
-					full = append(full, ModelSpec{me, ma, t, 0})
+					full = append(full, ModelSpec{Mesh: me, Mat: ma, TRS: t, Inst: 0})
 				}
 				for _, t := range []string{"-", "TRS"} {
-					full = append(full, ModelSpec{me, ma, t, 1}, ModelSpec{me, ma, t, 2})
+					full = append(full, ModelSpec{Mesh: me, Mat: ma, TRS: t, Inst: 1}, ModelSpec{Mesh: me, Mat: ma, TRS: t, Inst: 2})
 				}
 			}
 		}
@@ -292,7 +298,7 @@ func run(c *core.Ctx) {
 		var red []ModelSpec
 		for _, me := range smallMeshes {
 			for _, ma := range matMenu {
-				red = append(red, ModelSpec{me, ma, "-", 0}, ModelSpec{me, ma, "TRS", 1})
+				red = append(red, ModelSpec{Mesh: me, Mat: ma, TRS: "-", Inst: 0}, ModelSpec{Mesh: me, Mat: ma, TRS: "TRS", Inst: 1})
 			}
 		}
 		c.Bound("options_per_model.three", len(red))
